@@ -30,7 +30,7 @@ def handleAes : List String → String
 
 structure DrvState where
   gw : GwDrv := {}
-  deriving Inhabited
+  rt : Model.Router.St := Model.Router.init
 
 def handle (st : DrvState) (line : String) : DrvState × String :=
   match (line.trimAscii.toString.splitOn " ").filter (· ≠ "") with
@@ -49,6 +49,9 @@ def handle (st : DrvState) (line : String) : DrvState × String :=
     if op.startsWith "gw." then
       let (g, out) := handleGw st.gw (op :: rest)
       ({ st with gw := g }, out)
+    else if op.startsWith "rt." then
+      let (r, out) := handleRt st.rt (op :: rest)
+      ({ st with rt := r }, out)
     else (st, s!"bad-op {op}")
 
 partial def loop (hin : IO.FS.Stream) (hout : IO.FS.Stream) (st : DrvState) : IO Unit := do
